@@ -129,6 +129,11 @@ def run_job(job, unit_c, workdir, incdirs):
     """Returns dict(status=ok|fail|undecided, obligations=[...], failed=[...], ...)"""
     jd = os.path.join(workdir, 'job_' + job.name)
     os.makedirs(jd, exist_ok=True)
+    if job.a.get('engine') == 'realsmt':
+        # straight-line floating-point code checked with mathematical arithmetic (tools/realvc.py)
+        import realvc
+        with CPU_SEM:
+            return realvc.run(job, unit_c, jd, incdirs)
     a_gb = os.path.join(jd, 'a.gb')
     b_gb = os.path.join(jd, 'b.gb')
     inc = ' '.join('-I' + quote(d) for d in incdirs)
